@@ -10,6 +10,8 @@ pub struct BddVariableSet { _p: u8 }
 pub struct SymbolicContext { _p: u8 }
 pub struct SymbolicAsyncGraph { _p: u8 }
 pub struct GraphColoredVertices { _p: u8 }
+pub struct GraphVertices { _p: u8 }
+pub struct GraphColors { _p: u8 }
 pub struct BooleanNetwork { _p: u8 }
 #[derive(Clone, Copy)]
 pub struct VariableId { _p: usize }
@@ -30,6 +32,12 @@ impl GraphColoredVertices {
     pub fn approx_cardinality(&self) -> f64 { unimplemented!() }
     pub fn exact_cardinality(&self) -> u64 { unimplemented!() }
     pub fn symbolic_size(&self) -> usize { unimplemented!() }
+    pub fn vertices(&self) -> GraphVertices { unimplemented!() }
+    pub fn colors(&self) -> GraphColors { unimplemented!() }
+    pub fn minus_vertices(&self, _v: &GraphVertices) -> Self { unimplemented!() }
+    pub fn intersect_vertices(&self, _v: &GraphVertices) -> Self { unimplemented!() }
+    pub fn minus_colors(&self, _c: &GraphColors) -> Self { unimplemented!() }
+    pub fn intersect_colors(&self, _c: &GraphColors) -> Self { unimplemented!() }
 }
 impl Clone for GraphColoredVertices { fn clone(&self) -> Self { unimplemented!() } }
 impl PartialEq for GraphColoredVertices { fn eq(&self, _o: &Self) -> bool { unimplemented!() } }
@@ -49,6 +57,7 @@ impl SymbolicContext {
     pub fn mk_state_variable_is_true(&self, _v: VariableId) -> Bdd { unimplemented!() }
     pub fn as_canonical_context(&self) -> SymbolicContext { unimplemented!() }
     pub fn transfer_from(&self, _bdd: &Bdd, _ctx: &SymbolicContext) -> Option<Bdd> { unimplemented!() }
+    pub fn mk_constant(&self, _v: bool) -> Bdd { unimplemented!() }
 }
 impl SymbolicAsyncGraph {
     pub fn symbolic_context(&self) -> &SymbolicContext { unimplemented!() }
@@ -57,6 +66,15 @@ impl SymbolicAsyncGraph {
     pub fn mk_empty_colored_vertices(&self) -> GraphColoredVertices { unimplemented!() }
     pub fn pre(&self, _s: &GraphColoredVertices) -> GraphColoredVertices { unimplemented!() }
     pub fn var_pre(&self, _v: VariableId, _s: &GraphColoredVertices) -> GraphColoredVertices { unimplemented!() }
+    pub fn post(&self, _s: &GraphColoredVertices) -> GraphColoredVertices { unimplemented!() }
+    pub fn var_post(&self, _v: VariableId, _s: &GraphColoredVertices) -> GraphColoredVertices { unimplemented!() }
+    pub fn can_post(&self, _s: &GraphColoredVertices) -> GraphColoredVertices { unimplemented!() }
+    pub fn can_pre(&self, _s: &GraphColoredVertices) -> GraphColoredVertices { unimplemented!() }
+    pub fn reach_backward(&self, _s: &GraphColoredVertices) -> GraphColoredVertices { unimplemented!() }
+    pub fn reach_forward(&self, _s: &GraphColoredVertices) -> GraphColoredVertices { unimplemented!() }
+    pub fn trap_forward(&self, _s: &GraphColoredVertices) -> GraphColoredVertices { unimplemented!() }
+    pub fn trap_backward(&self, _s: &GraphColoredVertices) -> GraphColoredVertices { unimplemented!() }
+    pub fn mk_unit_colors(&self) -> GraphColors { unimplemented!() }
     pub fn variables(&self) -> VariableIdIterator { unimplemented!() }
     pub fn get_variable_name(&self, _v: VariableId) -> String { unimplemented!() }
     pub fn as_network(&self) -> Option<&BooleanNetwork> { unimplemented!() }
